@@ -433,4 +433,16 @@ example (ops : List (QOp ℝ)) :
   have he : ∀ c r, init.cells c r = 0 := by simp [init, DQ.setup, DQ.new]
   exact ⟨h0, he, (queue_exactly_once init ops h0 he).2.2.2.1⟩
 
+/-- non-vacuity of `totalPending_add`: on a fresh 3-slot queue an insertion far beyond the horizon (clamped to the last
+slot) is still counted in full, and only for its own reaction. -/
+example : totalPending ((DQ.setup 2 3 (1 / 2) : DQ ℝ).add 1000 1 5) 1 = 5
+    ∧ totalPending ((DQ.setup 2 3 (1 / 2) : DQ ℝ).add 1000 1 5) 0 = 0 := by
+  have h0 : (DQ.setup 2 3 (1 / 2) : DQ ℝ).start < (DQ.setup 2 3 (1 / 2) : DQ ℝ).numCols := by
+    simp [DQ.setup, DQ.new]
+  have hz : ∀ r, totalPending (DQ.setup 2 3 (1 / 2) : DQ ℝ) r = 0 := by
+    intro r; simp [totalPending, DQ.pending, DQ.setup, DQ.new]
+  constructor
+  · rw [totalPending_add _ _ _ _ _ h0, hz]; simp
+  · rw [totalPending_add _ _ _ _ _ h0, hz]; simp
+
 end Bioscrape.C20
